@@ -106,10 +106,10 @@ impl Service<Vec<u8>, ()> for Svc {
     }
 }
 
-type Stack = MandatoryMiddlewareSvc<Vec<u8>, EdnsMiddlewareSvc<Vec<u8>, Svc, ()>, ()>;
+type Stack = MandatoryMiddlewareSvc<Vec<u8>, EdnsMiddlewareSvc<Vec<u8>, domain::net::server::middleware::cookies::CookiesMiddlewareSvc<Vec<u8>, Svc, ()>, ()>, ()>;
 
-fn stack() -> Stack {
-    MandatoryMiddlewareSvc::new(EdnsMiddlewareSvc::new(Svc))
+fn stack(cookies: bool) -> Stack {
+    MandatoryMiddlewareSvc::new(EdnsMiddlewareSvc::new(domain::net::server::middleware::cookies::CookiesMiddlewareSvc::new(Svc, [7u8; 16]).enable(cookies)))
 }
 
 // ------------------------------------------------------------- requests ----
@@ -124,6 +124,8 @@ struct Req {
     /// not a request a server has to answer (garbage, a response, too short ...)
     hostile: bool,
     what: String,
+    /// a COOKIE option was added (kind of cookie)
+    cookie: Option<&'static str>,
 }
 
 fn mk_req(id: u16, label: &str, tag: usize, edns: Option<u16>) -> Req {
@@ -146,7 +148,30 @@ fn mk_req(id: u16, label: &str, tag: usize, edns: Option<u16>) -> Req {
         })
         .unwrap();
     }
-    Req { id, qname, edns, wire: a.finish(), hostile: false, what: format!("{} edns={:?}", label, edns) }
+    Req { id, qname, edns, wire: a.finish(), hostile: false, what: format!("{} edns={:?}", label, edns), cookie: None }
+}
+
+/// Append a COOKIE option (RFC 7873) to the OPT record, which is the last record of the request.
+fn add_cookie(rng: &mut Rng, r: &mut Req) {
+    if r.edns.is_none() {
+        return;
+    }
+    let (kind, len): (&'static str, usize) = match rng.below(7) {
+        0 | 1 => ("client-only", 8),
+        2 => ("client-and-unknown-server", 24),
+        3 => ("client-and-long-server", 40),
+        4 => ("too-short", rng.range(1, 7)),
+        5 => ("between-8-and-16", rng.range(9, 15)),
+        _ => ("too-long", 41),
+    };
+    let payload = rng.bytes(len);
+    let l = r.wire.len();
+    r.wire[l - 2..].copy_from_slice(&((4 + len) as u16).to_be_bytes());
+    r.wire.extend_from_slice(&10u16.to_be_bytes());
+    r.wire.extend_from_slice(&(len as u16).to_be_bytes());
+    r.wire.extend_from_slice(&payload);
+    r.cookie = Some(kind);
+    r.what = format!("{} cookie={}", r.what, kind);
 }
 
 fn hostile_req(rng: &mut Rng, id: u16, tag: usize) -> Req {
@@ -192,7 +217,7 @@ fn hostile_req(rng: &mut Rng, id: u16, tag: usize) -> Req {
         }
         _ => (gm::random_message(rng), "random message"),
     };
-    Req { id, qname: base.qname, edns: None, wire, hostile: true, what: what.to_string() }
+    Req { id, qname: base.qname, edns: None, wire, hostile: true, what: what.to_string(), cookie: None }
 }
 
 // ------------------------------------------------------------- UDP mock ----
@@ -253,6 +278,7 @@ fn full_len(r: &Req, records: usize) -> usize {
 fn udp_case(c: &mut Ctx, fam: &str, idx: u64) {
     let mut rng = c.case_rng(fam, idx);
     let configured = *rng.pick(&[Some(512u16), Some(1232), Some(1232), Some(4096), None]);
+    let cookies_on = rng.bool();
     let n = rng.range(1, 24);
     let mut reqs: Vec<(Req, SocketAddr)> = Vec::new();
     for k in 0..n {
@@ -273,14 +299,18 @@ fn udp_case(c: &mut Ctx, fam: &str, idx: u64) {
                     format!("s{}", (target / per).max(1) + rng.below(2))
                 }
             };
-            mk_req(id, &label, k, edns)
+            let mut r = mk_req(id, &label, k, edns);
+            if rng.chance(1, 3) {
+                add_cookie(&mut rng, &mut r);
+            }
+            r
         };
         reqs.push((r, addr));
     }
     // a probe that must always be answered comes last
     let probe_addr: SocketAddr = "198.51.100.7:5353".parse().unwrap();
     reqs.push((mk_req(rng.u16(), "s1", 9999, None), probe_addr));
-    let ex = json!({"configured_max_response_size": configured, "requests": reqs.iter().map(|(r, a)| json!({"what": r.what, "addr": a.to_string(), "wire": hex(&r.wire)})).collect::<Vec<_>>()});
+    let ex = json!({"configured_max_response_size": configured, "cookies_middleware": cookies_on, "requests": reqs.iter().map(|(r, a)| json!({"what": r.what, "addr": a.to_string(), "wire": hex(&r.wire)})).collect::<Vec<_>>()});
     let sock = Arc::new(MockUdp { inq: Mutex::new(VecDeque::new()), notify: tokio::sync::Notify::new(), sent: Mutex::new(vec![]) });
     let rt = tokio::runtime::Builder::new_current_thread().enable_all().start_paused(true).build().unwrap();
     let sock2 = sock.clone();
@@ -291,7 +321,7 @@ fn udp_case(c: &mut Ctx, fam: &str, idx: u64) {
         rt.block_on(async move {
             let mut cfg = dgram::Config::new();
             cfg.set_max_response_size(configured);
-            let srv = Arc::new(DgramServer::with_config(ArcSock(sock2.clone()), VecBufSource, stack(), cfg));
+            let srv = Arc::new(DgramServer::with_config(ArcSock(sock2.clone()), VecBufSource, stack(cookies_on), cfg));
             let s2 = srv.clone();
             let h = tokio::spawn(async move { s2.run().await });
             for (r, a) in reqs2.iter() {
@@ -350,7 +380,9 @@ fn udp_case(c: &mut Ctx, fam: &str, idx: u64) {
             continue;
         }
         let (kind, nrec) = plan_of(&r.qname);
-        let expect_n = if matches!(kind, 'm' | 't') { nrec.clamp(1, 40) } else { 1 };
+        // a malformed COOKIE option is answered by the cookie middleware itself, once
+        let cookie_refused = cookies_on && matches!(r.cookie, Some("too-short") | Some("between-8-and-16") | Some("too-long"));
+        let expect_n = if matches!(kind, 'm' | 't') && !cookie_refused { nrec.clamp(1, 40) } else { 1 };
         if mine.len() != expect_n {
             let sig = if ri == reqs.len() - 1 { "udp-probe-unanswered".to_string() } else { format!("udp-responses:{}-instead-of-{}:{}", mine.len(), expect_n, kind) };
             c.violation(&sig, &format!("request {} ({}) got {} responses", ri, r.what, mine.len()), rp(c, json!({})));
@@ -374,6 +406,7 @@ fn udp_case(c: &mut Ctx, fam: &str, idx: u64) {
         }
         let limit = udp_limit(r.edns, configured);
         let tc = pm.flags & 0x0200 != 0;
+        let cookie_reply = cookies_on && r.cookie.is_some();
         if m.len() > limit {
             let sig = match (r.edns, tc) {
                 (None, _) => "udp-size:no-edns".to_string(),
@@ -383,10 +416,15 @@ fn udp_case(c: &mut Ctx, fam: &str, idx: u64) {
             c.violation(&sig, &format!("a UDP response of {} octets (TC {}) to a request with EDNS size {:?}; the limit is {} (configured maximum {:?})", m.len(), tc, r.edns, limit, configured), rp(c, json!({"response_len": m.len()})));
             return;
         }
-        if kind == 's' || kind == 'w' || kind == 'm' || kind == 't' {
+        if cookie_reply && (pm.flags & 0xf != 0 || m.len() + 40 > limit) {
+            // the cookie middleware answered itself (BADCOOKIE, FORMERR for a malformed cookie), or its
+            // server cookie took room in the response: the size limit above is all that is checked
+            c.count("udp_cookie_replies", 1);
+        } else if kind == 's' || kind == 'w' || kind == 'm' || kind == 't' {
             let records = if kind == 's' { nrec.min(1500) } else { 1 };
             let full = full_len(r, records);
             let an = pm.counts[1] as usize;
+            let full = if cookie_reply { full + 28 } else { full };
             if full <= limit {
                 if (an != records || tc) && full <= 65535 {
                     c.violation("udp-needless-truncation", &format!("the complete answer has {} octets and fits the limit of {}, but the response has {} of {} records, TC {}", full, limit, an, records, tc), rp(c, json!({"response": hex(m)})));
@@ -522,6 +560,7 @@ async fn run_conn(tx: mpsc::UnboundedSender<(DuplexStream, SocketAddr)>, addr: S
 fn stream_case(c: &mut Ctx, fam: &str, idx: u64) {
     let mut rng = c.case_rng(fam, idx);
     let nconn = rng.range(1, 5);
+    let cookies_on = rng.bool();
     let mut plans: Vec<(ConnPlan, SocketAddr)> = Vec::new();
     let mut tag = 0;
     for ci in 0..nconn {
@@ -576,7 +615,7 @@ fn stream_case(c: &mut Ctx, fam: &str, idx: u64) {
             let mut cc = ConnectionConfig::new();
             cc.set_idle_timeout(Duration::from_secs(3));
             cfg.set_connection_config(cc);
-            let srv = Arc::new(StreamServer::with_config(MockListener { rx: Mutex::new(rx) }, VecBufSource, stack(), cfg));
+            let srv = Arc::new(StreamServer::with_config(MockListener { rx: Mutex::new(rx) }, VecBufSource, stack(cookies_on), cfg));
             let s2 = srv.clone();
             let h = tokio::spawn(async move { s2.run().await });
             let mut hs = Vec::new();
